@@ -78,7 +78,9 @@ def make_cfg(desc):
             cls = get_evaluatable(backend)
         f = cls.create_from(PrologString(text))
         if srk == "prob":
-            return f.evaluate(semiring=symsem.SymProbability() if symbolic else SemiringProbability())
+            # the semiring handed in by the route (SymProbability on the real route, BoolSemiring
+            # on the world route); ProbLog's default on the concrete replay path
+            return f.evaluate(semiring=sr if symbolic else SemiringProbability())
         if srk == "nsp":
             return f.evaluate(semiring=symsem.SymProbabilityNSP())
         if srk == "user":
